@@ -414,6 +414,10 @@ func (l *Lexer) readString(delimiter byte) string {
 		if l.CurrentChar == delimiter {
 			break
 		}
+		if l.CurrentChar == '"' {
+			// a double quote inside a single-quoted string: the compiler re-quotes with double quotes
+			result.WriteByte('\\')
+		}
 		result.WriteByte(l.CurrentChar)
 	}
 	return result.String()
